@@ -20,7 +20,7 @@ FIELDS = ['', '*', '**', '0', '1', '9', '10', '99', '127', '199', '249', '250', 
           '25５', '\t1', '1\n']
 V4_EXTRA = ['127.0.0.1', '127.0.0.2', '0.0.0.0', '255.255.255.255', '1.2.3.4', '001.2.3.4', '1.2.3.04', '256.1.1.1', '1.1.1.256',
             '+1.2.3.4', '1.2.3.+4', '*.*.*.*', '*.*.*.*.*', '*.*..*.*', '*.256.*.*', '.*.256.*.*', '1.1.1.1ab', '172.17.20.*',
-            '+1.007.*.3', '::1', '::', '::ffff:127.0.0.1', '1::2', '1.2.3', '1.2.3.4.', '.1.2.3.4', '1..2.3', '...', '....', '.....',
+            '+1.007.*.3', '::1', '::', '::ffff:127.0.0.1', '1::2', 'fe80::1', '1:2:3:4:5:6:7:8', '1:2:3:4:5:6:7', '::1.2.3.4', ':1', '1:', ':', '1:2', '*:*', '1.2.3.4:5', '::g', '1.2.3', '1.2.3.4.', '.1.2.3.4', '1..2.3', '...', '....', '.....',
             '1.2.3.4.5', '*', '', '.', '1,2,3,4', '1.2.3.4\n', ' 1.2.3.4', '１.2.3.4', '1.2.3.٤', '**.1.1.1', '*.*.*.**']
 
 NUMERAL = re.compile(r'\+?[0-9]+\Z')
@@ -268,6 +268,10 @@ def run(ctx):
                 ffi_expect = 'SET:' + str(lit)
             else:
                 ffi_expect = 'ERR:InvalidIpAddress' if spec == 'ERR' else 'WC:' + spec
+            if ffi.startswith('SET:') and ':' in ffi[4:] and ':' not in s:
+                n_bad += 1
+                ctx.violation('ipv6-literal-without-colon', f'{s!r} was taken as the IPv6 literal {ffi[4:]} although it contains no colon (hypothesis of C16_ffi_filter_full)',
+                              {'cases': [['parse', s]], 'impl': i}, no_failing_input=True)
             if lit is not None and ffi.startswith('SET:') and ip_literal(ffi[4:]) == lit:
                 ffi = ffi_expect        # same address, other textual form (::ffff:127.0.0.1 vs ::ffff:7f00:1)
             if rust != spec or ffi != ffi_expect:
